@@ -19,6 +19,8 @@ for d in sorted(glob.glob("/verif/seeded/*")):
         who = others + ' (not ' + tgt + ': ' + short(m.get('note', ''), 90) + ')'
     else:
         who = 'none — ' + short(m.get('note', ''), 160)
+    if m.get('caught_only_after'):
+        who += ' — only since: ' + short(m['caught_only_after'], 120)
     rows.append(f"| `{name}` | {short(m.get('summary',''), 110).replace('|','/')} | {short(m.get('needs_to_manifest',''), 90).replace('|','/')} | {who.replace('|','/')} |")
 seeds = "| seed | change | needs | reported by (target property in bold) |\n|---|---|---|---|\n" + "\n".join(rows)
 brow = []
